@@ -366,7 +366,13 @@ func verifHarness_C09_leave() {
 	stale := b.sm.delegate.LocalState(false) // a push/pull exchange already in flight
 	order := verifChoose("order", 2)
 	b.left = true
-	node := &memberlist.Node{Name: b.name}
+	// memberlist reports a graceful leave (StateLeft) and a node declared dead by the failure detector
+	// (StateDead) through the same callback
+	node := &memberlist.Node{Name: b.name, State: memberlist.StateLeft}
+	if verifChoose("how-it-left", 2) == 1 {
+		node.State = memberlist.StateDead
+		verifReach("peer-declared-dead")
+	}
 	if order == 0 {
 		verifAction("merge-then-leave")
 		a.sm.delegate.MergeRemoteState(stale, false)
